@@ -7,7 +7,9 @@ rc=0
 for d in seeded/*/; do
   id=$(basename "$d")
   [ -f "$d/patch.diff" ] && [ -f "$d/meta.json" ] || continue
-  prop=$(python3 -c "import json,sys; print(json.load(open('$d/meta.json')).get('property',''))")
+  # the check to run: meta "check" if present (a change caught by another property's check than the one it
+  # was written against), else the property it was written against
+  prop=$(python3 -c "import json,sys; m=json.load(open('$d/meta.json')); print(m.get('check') or m.get('property',''))")
   [ -n "$prop" ] || { echo "$id: no property in meta.json"; continue; }
   r=$(tools/mutant_run.sh "$d/patch.diff" "$prop" 2>&1 | grep -aE "^exit=|PATCH-FAILED|DOES-NOT-COMPILE" | tail -1)
   printf "%-12s %-4s %s\n" "$id" "$prop" "$r"
